@@ -1088,6 +1088,24 @@ class Interp:
                                 cbit = (b[1] >> i) & 1
                                 val_i = cbit if truth else 1 - cbit
                                 path.bitfacts[(bit[0], bit[1])] = (1 - val_i) if bit[2] else val_i
+                elif truth and a[0] == "bin" and a[1] in ("Shr", "ShrUnchecked") and is_int(a[3]):
+                    # (x >> k) == c: the bits of x from k upwards are those of c (for c = 0: x < 2^k)
+                    xb = bitvec(a, Path())
+                    srcs = {}
+                    for i, bit in enumerate(xb):
+                        if bit is not None and bit not in (0, 1):
+                            cbit = (b[1] >> i) & 1
+                            path.bitfacts[(bit[0], bit[1])] = (1 - cbit) if bit[2] else cbit
+                            srcs.setdefault(bit[0], set()).add(bit[1])
+                    if b[1] == 0:
+                        for src, known0 in srcs.items():
+                            wsrc = width_of(W(src, 64), 64) if src[0] != "w" else width_of(src)
+                            top = a[3][1]
+                            if all(i in known0 for i in range(top, min(wsrc, 64))):
+                                for key in (src, W(src, 64)):
+                                    old_ = path.maxbits.get(key)
+                                    if old_ is None or top < old_:
+                                        path.maxbits[key] = top
                 if truth:
                     self.assume_cond(path, a, b[1])
                 else:
@@ -1310,6 +1328,22 @@ class Interp:
         cb = self.F.bodies.get(name)
         if cb is not None and not cb.get("coroutine") and depth < self.max_depth and self.may_inline(name, cb):
             return self._inline(path, frame, t, cb, args, depth)
+        if cb is not None and cb.get("coroutine") and args and depth < self.max_depth:
+            # polling the future of a local `async fn` (an `.await` on it): the callee has no suspension point of its own
+            # that matters here, so the poll runs its body to completion and is Ready with the result
+            env = self._deref_all(path, args[0])
+            if env[0] == "agg" and env[1] == "coroutine:" + name:
+                def gen_poll():
+                    for o in self.call_body(cb, [env, args[1] if len(args) > 1 else ("resume_ctx",)], path, frame, depth + 1):
+                        if o.kind == "return":
+                            yield from self.cont(frame, t, o.path, ("agg", "adt:std::task::Poll", 0, (o.value,)), depth)
+                        else:
+                            yield o
+                return gen_poll()
+        if name.endswith("::into_future") and len(args) == 1 and args[0][0] == "agg" and args[0][1].startswith("coroutine:"):
+            return self._multi(path, frame, t, [(args[0], path)], depth)
+        if name.endswith("Pin::<Ptr>::new_unchecked") and len(args) == 1:
+            return self._multi(path, frame, t, [(args[0], path)], depth)
         return self._opaque(path, frame, t, name, args, depth, havoc=True)
 
     def _multi(self, path, frame, t, results, depth):
@@ -1536,6 +1570,21 @@ class Interp:
                     path.store[tmp] = e
                     e = ("ref", (tmp, ()), False)
                 return self._multi(path, frame, t, [(("citer", (e,)), path)], depth)
+        if name.startswith("std::ops::RangeInclusive::<") and shortn == "new" and len(args) == 2:
+            return self._multi(path, frame, t, [(("agg", "adt:std::ops::RangeInclusive", 0, (args[0], args[1], INT(0, 8))), path)], depth)
+        if args and "Iterator" in (t["f"].get("def") or name) and shortn in (
+                "filter", "map", "fold", "any", "all", "find", "position", "for_each", "sum", "rev", "chain", "count", "copied", "cloned"):
+            # a range with constant bounds used as an iterator chain: its elements are known
+            rg = self._deref_all(path, args[0])
+            if rg[0] == "agg" and rg[1] in ("adt:std::ops::Range", "adt:std::ops::RangeInclusive") and len(rg[3]) >= 2 \
+                    and is_int(rg[3][0]) and is_int(rg[3][1]):
+                lo_, hi_ = rg[3][0][1], rg[3][1][1] + (1 if rg[1].endswith("Inclusive") else 0)
+                if 0 <= hi_ - lo_ <= 128:
+                    cit = ("citer", tuple(INT(v_, rg[3][0][2]) for v_ in range(lo_, hi_)))
+                    if args[0][0] == "ref":
+                        self.write_loc(path, args[0][1], cit)
+                    else:
+                        args = [cit] + list(args[1:])
         if args and "Iterator" in (t["f"].get("def") or name) and \
                 (args[0][0] == "citer" or (args[0][0] == "ref" and self._deref_all(path, args[0])[0] == "citer")):
             it = self._deref_all(path, args[0])  # any / all / find / position take `&mut self`
@@ -1855,6 +1904,33 @@ class Interp:
         if self.concrete_ranges and name.endswith("::into_iter") and len(args) == 1 and args[0][0] == "agg" \
                 and args[0][1] == "adt:std::ops::Range":
             return self._multi(path, frame, t, [(args[0], path)], depth)
+        # --- NonZero<uN>: the same integer, known not to be zero
+        if name.startswith("std::num::NonZero::<T>::") and args:
+            meth = name.rsplit("::", 1)[1]
+            a = self._deref_all(path, args[0])
+            if meth == "new" and len(args) == 1:
+                z = self.binop(path, "Eq", a, INT(0, width_of(a)), 8)
+                d = self.decide(path, z)
+                outs = []
+                if d != 1:
+                    p_ok = path.copy() if d is None else path
+                    if d is None:
+                        self.assume_cond(p_ok, z, 0)
+                    outs.append((SOME(a), p_ok))
+                if d != 0:
+                    if d is None:
+                        self.assume_cond(path, z, 1)
+                    outs.append((NONE, path))
+                return self._multi(path, frame, t, outs, depth)
+            if meth in ("get", "new_unchecked") and len(args) == 1:
+                return self._multi(path, frame, t, [(a, path)], depth)
+        mnz = re.match(r"core::num::nonzero::<impl std::ops::(Div|Rem)<std::num::NonZero<([ui]\d+|usize)>> for [ui]\w+>::(div|rem)$", name)
+        if mnz and len(args) == 2:
+            tb = _prim_bits(mnz.group(2))
+            if tb:
+                a, b = self._deref_all(path, args[0]), self._deref_all(path, args[1])
+                path.events.append(("divop", mnz.group(1), a, b, tb[0], tb[1]))
+                return self._multi(path, frame, t, [(self.binop(path, mnz.group(1), a, b, tb[0], tb[1]), path)], depth)
         # --- PartialEq on references
         if name.endswith("::eq") or name.endswith("::ne"):
             if len(args) == 2:
@@ -2008,6 +2084,14 @@ class Interp:
                                     else:
                                         yield o
                                 continue
+                            res_ = self._call_closure_value(p, frame, t, clos, [payload], depth, "map")
+                            if res_ is not None:
+                                for o in res_:
+                                    if o.kind == "return":
+                                        yield from self.cont(frame, t, o.path, wrap(o.value), depth)
+                                    else:
+                                        yield o
+                                continue
                         if cb is None:
                             yield from self.cont(frame, t, p, wrap(("ret", "map", (self.norm_arg(p, args[1]), payload), 0)), depth)
                             continue
@@ -2091,7 +2175,23 @@ class Interp:
         clos = self._deref_all(path, clos)
         if clos[0] == "fn":
             fb = self.F.bodies.get(clos[2] or clos[1]) or self.F.bodies.get(clos[1])
-            if fb is None or depth >= self.max_depth or fb.get("coroutine"):
+            if fb is None:
+                # the constructor of a tuple variant / tuple struct used as a function (`.map(Operand::Memory)`)
+                for nm in (clos[2], clos[1]):
+                    if not isinstance(nm, str) or "::" not in nm:
+                        continue
+                    nm = nm.split("::<")[0]
+                    adt, var = nm.rsplit("::", 1)
+                    a_ = self.F.adts.get(adt)
+                    if a_ is not None:
+                        for vi, v_ in enumerate(a_["variants"]):
+                            if v_["name"] == var and len(v_["fields"]) == len(cargs):
+                                return [Outcome("return", ("agg", "adt:" + adt, vi, tuple(cargs)), path)]
+                    a_ = self.F.adts.get(nm)
+                    if a_ is not None and a_["kind"] == "Struct" and len(a_["variants"][0]["fields"]) == len(cargs):
+                        return [Outcome("return", ("agg", "adt:" + nm, 0, tuple(cargs)), path)]
+                return None
+            if depth >= self.max_depth or fb.get("coroutine"):
                 return None
             return list(self.call_body(fb, list(cargs), path, frame, depth + 1))
         if clos[0] != "agg" or not clos[1].startswith("closure:"):
@@ -2265,7 +2365,7 @@ def _prim_bits(s):
 
 
 def ground(t):
-    if t[0] == "int":
+    if t[0] in ("int", "str"):
         return True
     if t[0] == "agg":
         return all(ground(x) for x in t[3])
